@@ -17,6 +17,7 @@ package s2
 import (
 	"bufio"
 	"encoding/binary"
+	"errors"
 	"io"
 	"math"
 )
@@ -201,7 +202,15 @@ func (d *decoder) readFloat64() float64 {
 	}
 	buf := d.buffer()
 	_, d.err = io.ReadFull(d.r, buf)
-	return math.Float64frombits(binary.LittleEndian.Uint64(buf))
+	x := math.Float64frombits(binary.LittleEndian.Uint64(buf))
+	if d.err == nil && (math.IsNaN(x) || math.IsInf(x, 0)) {
+		// No valid encoding contains a non-finite coordinate, bound or radius,
+		// and a decoded value that holds one panics in the exact predicates
+		// (big.Float cannot represent NaN) as soon as it is queried.
+		d.err = errors.New("non-finite floating point value")
+		return 0
+	}
+	return x
 }
 
 func (d *decoder) readUvarint() (x uint64) {
